@@ -35,8 +35,23 @@ def main():
                 if ln.isdigit():
                     touched_loc.setdefault(f, set()).add(int(ln))
         unc, cov = [], 0
+        # entry points named by the property (observe_at), and everything of the package they reach
+        import re as _re
+        ents = []
+        for o in props[pid]["anchors"].get("observe_at", []):
+            for tok in _re.findall(r"[A-Za-z_][A-Za-z_0-9.]*", o):
+                for d in ctx.repo.all_defs():
+                    q = d.qualname
+                    if q.endswith("." + tok) or q.endswith("." + tok + ".__call__") or q.endswith("." + tok + ".__init__") or q.endswith("." + tok + ".transform"):
+                        ents.append(d)
+        reach = set(ctx.cg.reachable(ents, strengths=("strong", "weak"))) if ents and "--files" not in sys.argv else None
         for d in ctx.repo.all_defs():
-            if d.module.relpath not in files or d.is_lambda:
+            if d.is_lambda:
+                continue
+            if reach is not None:
+                if d not in reach and not any(d.qualname.startswith(e.qualname + ".") for e in reach):
+                    continue
+            elif d.module.relpath not in files:
                 continue
             n = d.node
             lines = set(range(n.lineno, (n.end_lineno or n.lineno) + 1))
@@ -48,7 +63,7 @@ def main():
                 cov += 1
             elif not trivial:
                 unc.append((d.qualname.replace("swcgeom.", ""), size))
-        print(f"{pid}: {cov} covered, {len(unc)} uncovered defs in {sorted(files)}")
+        print(f"{pid}: {cov} covered, {len(unc)} uncovered defs " + (f"reachable from {len(ents)} entry defs ({sorted({e.qualname.split('.')[-2] + '.' + e.name for e in ents})[:8]})" if reach is not None else f"in {sorted(files)}"))
         for q, s in sorted(unc, key=lambda x: -x[1])[:40]:
             print(f"      {s:4d} lines  {q}")
 
